@@ -88,6 +88,9 @@ type Obligation struct {
 	ModelX  map[string]string  `json:"model_exact,omitempty"`
 	Path    int                `json:"path"`
 	Err     string             `json:"err,omitempty"`
+	// Abstract names the over-approximation the query contained (sin/cos of a symbolic angle as a
+	// unit pair, float32 rounding as an uninterpreted function): its models may be spurious.
+	Abstract string `json:"abstract,omitempty"`
 }
 
 // Exec is the per-task exploration state.
@@ -1138,6 +1141,11 @@ func (ex *Exec) flush() {
 		ob.Nodes = smt.Size(append(append([]*smt.Term{neg}, ex.pc...), ex.defs...)...)
 		if r.Status == "sat" {
 			ob.Model, ob.ModelX = ex.modelOf(r)
+			if len(ex.C.Trig) > 0 {
+				ob.Abstract = "sin/cos of a symbolic angle abstracted to a unit pair with quadrant signs"
+			} else if _, ok := ex.C.Funs["f32"]; ok {
+				ob.Abstract = "float32 rounding abstracted to an uninterpreted function"
+			}
 			for k, v := range ex.Cases {
 				ob.Model["case:"+k] = float64(v)
 			}
